@@ -17,6 +17,7 @@ import (
 	"os"
 	"runtime"
 	"sync"
+	"sync/atomic"
 	"testing"
 	"time"
 
@@ -301,11 +302,204 @@ func TestVerifC04Replay(t *testing.T) {
 		}()
 	}
 	wg.Wait()
+	c04ConcurrentStage(res, limit, maxPayload, bufSize, kit.EnvInt("VERIF_C04_ROUNDS", 0), -1)
 	res.Stat("abstract_cases", int64(len(cases)))
 	res.Stat("jobs", int64(len(jobs)))
 }
 
+// ------------------------------------------------------------------ concurrent first use of a fresh codec
+
+// c04ConcRound is one round: a FRESH Obfuscator (every 16th round the one embedded in a fresh Session, as the
+// streams of a session share it) whose first frames are encoded by k goroutines released together.
+type c04ConcRound struct {
+	o       *Obfuscator
+	k       int
+	arrived atomic.Int32
+	done    sync.WaitGroup
+	frames  [8]Frame
+	off     [8]int
+	n       [8]int
+	err     [8]error
+}
+
+type c04ConcReplay struct {
+	Concurrent bool   `json:"concurrent"`
+	Method     int    `json:"method"`
+	K          int    `json:"k"`
+	Round      int    `json:"round"`
+	Worker     int    `json:"worker"`
+	Place      string `json:"place"`
+	Sid        uint32 `json:"sid"`
+	Seq        uint64 `json:"seq"`
+	Len        int    `json:"len"`
+	N          int    `json:"n"`
+	Key        string `json:"key"`
+	Msg        string `json:"msg_prefix"`
+}
+
+// c04ConcurrentStage: for each method, many fresh codecs x k = 2..8 goroutines encoding their first frame at the
+// same instant (spin barrier, persistent workers). Every message must respect the limit and decode to the
+// identical frame with the code's own deobfuscate and with the independent reference codec. onlyMethod < 0 = all.
+func c04ConcurrentStage(res *kit.Result, limit, maxPayload, bufSize, rounds int, onlyMethod int) {
+	if rounds <= 0 {
+		rounds = 6000
+		if kit.Thorough() {
+			rounds = 60000
+		}
+	}
+	const K = 8
+	// persistent workers sleep on their channel between rounds (no idle spinning on a shared machine); once woken
+	// they meet at a short bounded spin barrier so that they enter obfuscate within nanoseconds of each other
+	var chans [K]chan *c04ConcRound
+	var wg sync.WaitGroup
+	for w := 0; w < K; w++ {
+		chans[w] = make(chan *c04ConcRound, 1)
+		wg.Add(1)
+		go func(w int) {
+			defer wg.Done()
+			for r := range chans[w] {
+				r.arrived.Add(1)
+				for spins := 0; r.arrived.Load() < int32(r.k) && spins < 50000; spins++ {
+				}
+				r.n[w], r.err[w] = r.o.obfuscate(&r.frames[w], c04ConcBufs[w][:bufSize], r.off[w])
+				r.done.Done()
+			}
+		}(w)
+	}
+	defer func() {
+		for w := 0; w < K; w++ {
+			close(chans[w])
+		}
+		wg.Wait()
+	}()
+	for w := 0; w < K; w++ {
+		if len(c04ConcBufs[w]) < bufSize {
+			c04ConcBufs[w] = make([]byte, bufSize)
+			c04ConcPays[w] = make([]byte, bufSize)
+		}
+	}
+	rng := kit.NewRng(kit.Seed()*31 + 5)
+	lens := []int{1, 2, 15, 16, 17, 100, 255, 256, 1024, maxPayload / 2, maxPayload - 1, maxPayload}
+	tmp := make([]byte, 0, bufSize+512)
+	for method := byte(0); method < 4; method++ {
+		if onlyMethod >= 0 && int(method) != onlyMethod {
+			continue
+		}
+		mname := map[byte]string{0: "plain", 1: "aes-256-gcm", 2: "chacha20-poly1305", 3: "aes-128-gcm"}[method]
+		bad := 0
+		for round := 0; round < rounds && bad < 20; round++ {
+			var key [32]byte
+			copy(key[:], rng.Bytes(32))
+			r := &c04ConcRound{k: 2 + rng.Intn(K-1)}
+			if round%4 == 0 {
+				r.k = 2 // the narrowest window is between two encoders
+			}
+			o, err := MakeObfuscator(method, key)
+			if err != nil {
+				res.Note("concurrent stage: %v", err)
+				return
+			}
+			if round%16 == 15 { // the codec as the streams of a session see it
+				sesh := MakeSession(0, SessionConfig{Obfuscator: o, MsgOnWireSizeLimit: limit, InactivityTimeout: 24 * time.Hour})
+				r.o = &sesh.Obfuscator
+			} else {
+				r.o = &o
+			}
+			for w := 0; w < r.k; w++ {
+				n := lens[rng.Intn(len(lens))]
+				if rng.Intn(4) > 0 {
+					n = lens[rng.Intn(6)] // mostly short frames: the encoders reach the shared state together
+				}
+				pay := c04ConcPays[w][:n]
+				kit.FillToken(pay, uint64(round)<<8|uint64(w))
+				seq := uint64(0) // the first frame of a stream
+				if rng.Intn(4) == 0 {
+					seq = c04SeqAbove[rng.Intn(len(c04SeqAbove))]
+				}
+				r.frames[w] = Frame{StreamID: uint32(w + 1), Seq: seq, Closing: byte(rng.Intn(3))}
+				if (round+w)%2 == 0 { // in place
+					copy(c04ConcBufs[w][frameHeaderLength:], pay)
+					r.frames[w].Payload = c04ConcBufs[w][frameHeaderLength : frameHeaderLength+n]
+					r.off[w] = frameHeaderLength
+				} else {
+					r.frames[w].Payload = pay
+					r.off[w] = 0
+				}
+			}
+			r.done.Add(r.k)
+			for w := 0; w < r.k; w++ {
+				chans[w] <- r
+			}
+			r.done.Wait()
+			if int(r.arrived.Load()) == r.k {
+				res.Stat("concurrent-first-use:rounds-with-all-arrived", 1)
+			}
+			for w := 0; w < r.k; w++ {
+				f := &r.frames[w]
+				pay := c04ConcPays[w][:len(f.Payload)]
+				place := map[int]string{frameHeaderLength: "in", 0: "out"}[r.off[w]]
+				res.Count(fmt.Sprintf("conc|%s|%d|%d|%s", mname, r.k, len(pay), place), true)
+				res.Stat("concurrent-first-use:encodes", 1)
+				key2, what := "", ""
+				msg := c04ConcBufs[w][:max(0, min(r.n[w], bufSize))]
+				switch {
+				case r.err[w] != nil:
+					key2, what = "encode-error", fmt.Sprintf("obfuscate refused a legal first frame: %v", r.err[w])
+				case r.n[w] > limit:
+					key2, what = "size-limit", fmt.Sprintf("encoded message is %d bytes, the limit is %d", r.n[w], limit)
+				default:
+					var g Frame
+					if err := r.o.deobfuscate(&g, append(tmp[:0], msg...)); err != nil {
+						key2, what = "roundtrip:concurrent-first-use", fmt.Sprintf("deobfuscate rejects the message (%d bytes for payload %d): %v", r.n[w], len(pay), err)
+					} else if d := c04FrameEq(&g, f.StreamID, f.Seq, f.Closing, pay); d != "" {
+						key2, what = "roundtrip:concurrent-first-use", d
+					} else if rf, err := kit.RefDecodeFull(method, key[:], msg); err != nil {
+						key2, what = "interop:concurrent-first-use", fmt.Sprintf("independent decoder rejects the message (%d bytes for payload %d): %v", r.n[w], len(pay), err)
+					} else if d := c04FrameEq(&Frame{StreamID: rf.Sid, Seq: rf.Seq, Closing: rf.Closing, Payload: rf.Payload}, f.StreamID, f.Seq, f.Closing, pay); d != "" {
+						key2, what = "interop:concurrent-first-use", "independent decoder: "+d
+					}
+				}
+				if key2 != "" {
+					bad++
+					what = fmt.Sprintf("%s, fresh codec, %d goroutines encoding their first frame concurrently (round %d, worker %d, %s-place): %s", mname, r.k, round, w, place, what)
+					res.Violate(key2, what, c04ConcReplay{Concurrent: true, Method: int(method), K: r.k, Round: round, Worker: w, Place: place, Sid: f.StreamID,
+						Seq: f.Seq, Len: len(pay), N: r.n[w], Key: hex.EncodeToString(key[:]), Msg: hex.EncodeToString(msg[:min(len(msg), 64)])})
+				}
+			}
+		}
+		res.Stat("concurrent-first-use:rounds:"+mname, int64(rounds))
+	}
+}
+
+var c04ConcBufs, c04ConcPays [8][]byte
+
+// TestVerifC04Concurrent runs only the concurrent first-use stage (used for the -race run).
+func TestVerifC04Concurrent(t *testing.T) {
+	log.SetOutput(io.Discard)
+	res := kit.NewResult()
+	defer func() { res.Save(true) }()
+	limit, maxPayload, bufSize := c04Limits()
+	c04ConcurrentStage(res, limit, maxPayload, bufSize, kit.EnvInt("VERIF_C04_ROUNDS", 0), -1)
+}
+
 func c04ReplayFile(t *testing.T, path string) {
+	var cr struct {
+		Replay c04ConcReplay `json:"replay"`
+	}
+	if raw, err := os.ReadFile(path); err == nil && json.Unmarshal(raw, &cr) == nil && cr.Replay.Concurrent {
+		// a schedule cannot be replayed: re-run the stage for that method until the failure shows again
+		limit, maxPayload, bufSize := c04Limits()
+		res := kit.NewResult()
+		fmt.Printf("recorded: method %d, %d goroutines, payload %d, %s-place, message of %d bytes: %s...\n", cr.Replay.Method, cr.Replay.K, cr.Replay.Len, cr.Replay.Place, cr.Replay.N, cr.Replay.Msg)
+		c04ConcurrentStage(res, limit, maxPayload, bufSize, 200000, cr.Replay.Method)
+		res.Save(false)
+		for _, v := range res.Violations {
+			fmt.Printf("key=%q what=%q\n", v.Key, v.What)
+		}
+		fmt.Printf("REPLAY-RESULT violations=%d\n", res.NumViolations())
+		return
+	}
+
 	var rf struct {
 		Replay c04Input `json:"replay"`
 	}
